@@ -283,6 +283,7 @@ pub struct Broker {
     muxq: BTreeMap<u16, VecDeque<(Vec<u8>, Option<SentKind>, bool)>>,
     flush_scheduled: bool,
     pub silent: bool,
+    closeok_enqueued: bool,
     pub s2c: Vec<u8>,
     s2c_closed: bool,
     last_s2c_at: u64,
@@ -342,6 +343,7 @@ impl Broker {
             muxq: BTreeMap::new(),
             flush_scheduled: false,
             silent: false,
+            closeok_enqueued: false,
             s2c: Vec::new(),
             s2c_closed: false,
             last_s2c_at: 0,
@@ -395,8 +397,12 @@ impl Broker {
     }
 
     fn enqueue_now(&mut self, ch: u16, frames: Vec<Vec<u8>>, what: SentKind) {
-        if self.silent || self.s2c_closed {
+        if self.silent || self.s2c_closed || self.closeok_enqueued {
             return;
+        }
+        if let SentKind::ConnectionCloseOk = &what {
+            // nothing follows the CloseOk
+            self.closeok_enqueued = true;
         }
         // a real broker sends nothing on a channel it considers closed, no delivery for a
         // cancelled consumer, and nothing but the close handshake once the connection closes
@@ -942,7 +948,9 @@ impl Broker {
                 // a server that closes stops everything else
                 let chs: Vec<u16> = self.muxq.keys().cloned().collect();
                 for c in chs {
-                    self.clear_queue(c, false);
+                    // nothing may follow Connection.Close; a content cut short by it is legal
+                    // (the close travels on channel 0)
+                    self.clear_queue(c, true);
                 }
                 self.enqueue_now(0, vec![Self::m(0, AMQPClass::Connection(Cn::Close(close)))], SentKind::ConnectionClose { code, text });
             }
